@@ -13,7 +13,14 @@ Contract on pytezos.rpc.node:RpcNode.request over a response sequence r0, r1, ..
         d.status == 200  ==> d itself is returned
         d.status == 401  ==> RpcError('Unauthorized: <path>');   404 ==> RpcError('Not found: <path>')
         otherwise        ==> an RpcError built from d (the LAST response received): its payload is d's last error / d's text
+    a transport failure (requests.request raises ConnectionError / Timeout: NO response) is never followed by a re-send
+        (the property: "sent again only after a transient server error"); the caller sees an exception
 Contract on _is_transient_response(r) for the 5xx alphabet: == the spec predicate above.
+Inputs (widened by the input audit): the request is issued with every HTTP method (GET / POST / PUT / DELETE) and through
+the get / post / put / delete wrappers, with params / json / timeout kwargs (timeout None and 0 included), on a node built
+from a URI list with custom headers, and - because the property speaks of requests, not of fresh node objects - as the SECOND
+request on a node object that has just served a retried success / a request that exhausted the attempt limit / a 401 / a
+transport failure.
 """
 from __future__ import annotations
 import itertools
@@ -52,8 +59,22 @@ EXTRA = {
     'prevalidator-json': (500, 'application/json', lambda i: json.dumps(f'prevalidator.ml assertion #{i}'), True),
     'tmp499': (499, 'application/json', lambda i: _errs(i, {'kind': 'temporary', 'id': 'node.x'}), False),
     '403': (403, 'text/plain', lambda i: f'forbidden #{i}', False),
+    # status 0 = no response at all: requests.request raises the named requests.exceptions class
+    'connerr': (0, 'ConnectionError', lambda i: f'connection refused #{i}', False),
 }
-SYMS = {**ALPHABET, **EXTRA}
+# more boundary symbols, used in a reduced family of canonical sequences (see run_R): the other 5xx codes, bodies without
+# 'kind', a non-dict element next to a temporary error, a read timeout
+EXTRA2 = {
+    'tmp504': (504, 'application/json', lambda i: _errs(i, {'kind': 'temporary', 'id': 'node.gateway'}), True),
+    'tmp599': (599, 'application/json', lambda i: _errs(i, {'kind': 'temporary', 'id': 'node.x'}), True),
+    'tmp502-text': (502, 'text/html', lambda i: f'<html>upstream: Assert_failure prevalidator.ml:1918 #{i}</html>', True),
+    'perm501': (501, 'application/json', lambda i: _errs(i, {'kind': 'permanent', 'id': 'node.not_implemented'}), False),
+    'nokind5xx': (500, 'application/json', lambda i: _errs(i, {'id': 'node.mempool.busy'}), False),
+    'protolike-tmp5xx': (500, 'application/json', lambda i: _errs(i, {'kind': 'temporary', 'id': 'protocol_violation.x'}), True),
+    'tmp-after-nondict5xx': (500, 'application/json', lambda i: json.dumps([f'note #{i}', {'kind': 'temporary', 'id': 'node.x', 'seq': i}]), True),
+    'timeout-exc': (0, 'Timeout', lambda i: f'read timed out #{i}', False),
+}
+SYMS = {**ALPHABET, **EXTRA, **EXTRA2}
 
 
 class _Exhausted(Exception):
@@ -94,9 +115,18 @@ def spec_run(seq):
     return len(seq) + 1, delays, None
 
 
-def run_real(seq, kwargs=None):
-    """Drive the real RpcNode.request with the scripted sequence."""
+def new_node(kind='plain'):
+    import pytezos.rpc.node as N
+    if kind == 'list+headers':
+        return N.RpcNode(['http://node.invalid:8732', 'http://unused.invalid:8732'], headers={'x-api-key': 'k'})
+    return N.RpcNode('http://node.invalid:8732')
+
+
+def run_real(seq, kwargs=None, method='GET', via=None, node=None):
+    """Drive the real RpcNode.request (or, with via='get'/'post'/'put'/'delete', the wrapper of that name) with the scripted
+    sequence, on a fresh node or on the given node object."""
     import requests
+    import requests.exceptions
     import pytezos.rpc.node as N
     calls, sleeps, served = [], [], []
 
@@ -105,6 +135,10 @@ def run_real(seq, kwargs=None):
         i = len(calls) - 1
         if i >= len(seq):
             raise _Exhausted(i)
+        if SYMS[seq[i]][0] == 0:            # no response: the transport fails
+            x = getattr(requests.exceptions, SYMS[seq[i]][1])(SYMS[seq[i]][2](i))
+            served.append(x)
+            raise x
         r = FakeResponse(seq[i], i)
         served.append(r)
         return r
@@ -116,9 +150,13 @@ def run_real(seq, kwargs=None):
     requests.request = lambda *a, **kw: fake_request(**dict(kw, **({'_positional': a} if a else {})))
     N.sleep = fake_sleep
     try:
-        node = N.RpcNode('http://node.invalid:8732')
+        if node is None:
+            node = new_node()
         try:
-            out = ('return', node.request('GET', PATH, **(kwargs or {})))
+            if via is None:
+                out = ('return', node.request(method, PATH, **(kwargs or {})))
+            else:
+                out = ('return', getattr(node, via)(PATH, **(kwargs or {})))
         except _Exhausted as x:
             out = ('exhausted', x)
         except Exception as x:  # noqa
@@ -128,12 +166,12 @@ def run_real(seq, kwargs=None):
     return out, calls, sleeps, served
 
 
-def eval_seq(seq, kwargs=None):
+def eval_seq(seq, kwargs=None, method='GET', via=None, node=None):
     """-> list of (clause, info, wclass)"""
     import pytezos.rpc.node as N
     fails = []
     n_want, delays_want, d = spec_run(seq)
-    (kind, val), calls, sleeps, served = run_real(seq, kwargs)
+    (kind, val), calls, sleeps, served = run_real(seq, kwargs, method, via, node)
     n_tr = 0
     for s in seq:
         if not spec_transient(s):
@@ -150,8 +188,10 @@ def eval_seq(seq, kwargs=None):
     if sleeps != delays_want:
         fails.append(('RpcNode.request::ensures.backoff_delays', f'slept {sleeps}, expected {delays_want} for {seq}',
                       f'delays after {len(delays_want)} retries'))
-    if any(c != calls[0] for c in calls):
-        fails.append(('RpcNode.request::ensures.same_request_resent', f'requests differ: {calls}', 'request changed between attempts'))
+    want_method = via.upper() if via else method
+    if any(c != calls[0] for c in calls) or calls[0].get('method') != want_method or not str(calls[0].get('url', '')).endswith(PATH):
+        fails.append(('RpcNode.request::ensures.same_request_resent', f'requests differ from each other or from the {want_method} {PATH} asked for: {calls}',
+                      'request changed between attempts'))
     if d is None:
         if kind != 'exhausted':
             fails.append(('RpcNode.request::ensures.resend_iff_transient_and_under_limit',
@@ -159,9 +199,15 @@ def eval_seq(seq, kwargs=None):
         return fails
     last = served[d]
     sym = seq[d]
+    if isinstance(last, BaseException):
+        if kind != 'raise':
+            fails.append(('RpcNode.request::raises.on_transport_failure', f'outcome {kind} {val!r} although attempt #{d} got no response ({seq})',
+                          f'transport failure swallowed ({sym})'))
+        return fails
     status = last.status_code
     if status == 200:
-        if kind != 'return' or val is not last:
+        returned = kind == 'return' and (val is last if via is None else val == json.loads(last.text))
+        if not returned:
             fails.append(('RpcNode.request::ensures.returns_first_success', f'outcome {kind} {val!r}, expected response #{d} returned ({seq})',
                           f'success not returned ({shape})'))
         return fails
@@ -220,7 +266,12 @@ def replay(case):
     if case.get('kind') == 'classifier':
         fails = eval_transient(case['sym'])
     else:
-        fails = eval_seq(case['seq'], case.get('kwargs'))
+        node = None
+        if case.get('before') is not None or case.get('node'):
+            node = new_node(case.get('node', 'plain'))
+        if case.get('before') is not None:
+            eval_seq(case['before'], node=node)          # the earlier request on the same node object
+        fails = eval_seq(case['seq'], case.get('kwargs'), case.get('method', 'GET'), case.get('via'), node)
     return bool(fails), ('; '.join(f'{c}: {i}' for c, i, _ in fails) or f'contract holds on {case}')
 
 
@@ -245,6 +296,49 @@ def _chunk(args):
     return n, classes, fails
 
 
+# what the node object has been through before the request under contract (second request on the SAME object)
+BEFORE = {
+    'retried-success': ['tmp5xx', 'prevalidator', 'tmp503', 'ok'],
+    'attempt-limit': ['tmp5xx'] * 6,
+    'limit-then-permanent': ['prevalidator'] * 5 + ['perm5xx'],
+    'unauthorized': ['401'],
+    'transport-failure': ['tmp5xx', 'connerr'],
+}
+
+
+def second_seqs():
+    non = [x for x in {**ALPHABET, **EXTRA} if not spec_transient(x)]
+    out = []
+    for t in ('tmp5xx', 'prevalidator'):
+        for k in range(0, 7):
+            for dec in non + [None]:
+                if k == 0 and (dec is None or t != 'tmp5xx'):
+                    continue
+                out.append([t] * k + ([dec] if dec else []))
+    return out
+
+
+def _pairs(before_name):
+    """every second-request sequence on a node object that has just served BEFORE[before_name]"""
+    n, classes, fails = 0, set(), {}
+    for seq in second_seqs():
+        node = new_node()
+        eval_seq(BEFORE[before_name], node=node)
+        n += 1
+        classes.add(f'second request after {before_name}: {len(seq)} responses, last {seq[-1]}')
+        for clause, info, w in eval_seq(seq, node=node):
+            key = (clause, f'second request on the same node after {before_name}: ' + w)
+            if key not in fails:
+                fails[key] = dict(seq=seq, info=f'after {BEFORE[before_name]} on the same node object: {info}', count=0,
+                                  extra=dict(before=BEFORE[before_name]))
+            fails[key]['count'] += 1
+    return n, classes, fails
+
+
+def _job(args):
+    return _pairs(args[1]) if args[0] == 'pairs' else _chunk(args)
+
+
 def run_R(ck: Check):
     import pytezos.rpc.node as N
     ck.function(N.RpcNode.request)
@@ -260,7 +354,9 @@ def run_R(ck: Check):
                                 f'(transient prefix, deciding symbol, optional tail) over the 19-symbol alphabet up to length {L}')
     ck.rule('R: every response sequence over {200, temporary 5xx, permanent 5xx, proto 5xx, prevalidator text 5xx, non-JSON 5xx, '
             '401, 404, 400}; class = (length, length of the transient prefix, deciding symbol); plus boundary symbols '
-            '(503, several errors, branch, JSON dict, invalid JSON, empty list, 499, 403) in canonical sequences')
+            '(503, several errors, branch, JSON dict, invalid JSON, empty list, 499, 403, transport failure) in canonical sequences; '
+            '501/502/504/599, bodies without kind, non-dict elements, read timeout in a reduced family; every HTTP method and '
+            'wrapper with kwargs; second requests on a node object that has already served a request')
     agg = {}
 
     def merge(fails):
@@ -271,6 +367,7 @@ def run_R(ck: Check):
                 agg[key]['count'] += f['count']
                 if (len(f['seq']), f['seq']) < (len(agg[key]['seq']), agg[key]['seq']):
                     agg[key]['seq'], agg[key]['info'] = f['seq'], f['info']
+                    agg[key]['extra'] = f.get('extra', {})
 
     # classifier on every 5xx symbol
     for sym in SYMS:
@@ -281,8 +378,9 @@ def run_R(ck: Check):
             ck.violation(clause, info, case=dict(kind='classifier', sym=sym), replay=REPLAY, wclass=w)
 
     # canonical sequences over the full symbol set, up to length 7 (8 to see the cap with a tail)
-    tr = [s for s in SYMS if spec_transient(s)]
-    non = [s for s in SYMS if not spec_transient(s)]
+    CANON = {**ALPHABET, **EXTRA}
+    tr = [s for s in CANON if spec_transient(s)]
+    non = [s for s in CANON if not spec_transient(s)]
     for k in range(0, 8):
         prefixes = itertools.product(tr, repeat=k) if k <= 2 else ([t] * k for t in tr)
         prefixes = list(prefixes) + ([tuple((tr * 8)[:k])] if k > 2 else [])
@@ -296,25 +394,48 @@ def run_R(ck: Check):
                     ck.evaluate(f'canonical prefix={k} then={dec} tail={len(tail)}',
                                 sample=dict(seq=seq) if k == 2 and dec == 'perm5xx' and not tail and len(ck.samples) < 3 else None)
                     merge({(c, w): dict(seq=seq, info=i, count=1) for c, i, w in fs})
-    # request kwargs are passed through unchanged on every attempt
-    for kwargs in ({'params': {'a': 1}}, {'json': {'x': [1, 2]}, 'timeout': 5}):
-        seq = ['tmp5xx', 'prevalidator', 'ok']
-        fs = eval_seq(seq, kwargs)
-        ck.evaluate(f'kwargs {sorted(kwargs)}')
-        merge({(c, w): dict(seq=seq, info=i, count=1, kwargs=kwargs) for c, i, w in fs})
+    # the reduced family for the further boundary symbols: alone, as the deciding response after 0..2 and 5 transient ones,
+    # and (transient ones) repeated up to and beyond the attempt limit
+    for sym in EXTRA2:
+        fam = [[sym], [sym, 'ok'], ['tmp5xx', sym, 'ok'], ['prevalidator', 'tmp503', sym], ['tmp5xx'] * 5 + [sym, 'ok']]
+        if spec_transient(sym):
+            fam += [[sym] * k + [dec] for k in range(1, 8) for dec in ('ok', 'perm5xx', 'connerr')] + [[sym] * k for k in range(1, 8)]
+        for seq in fam:
+            seq = seq[:8]
+            fs = eval_seq(seq)
+            ck.evaluate(f'boundary symbol {sym} len={len(seq)} last={seq[-1]}')
+            merge({(c, w): dict(seq=seq, info=i, count=1) for c, i, w in fs})
+    # every HTTP method, the get/post/put/delete wrappers, request kwargs (passed through unchanged on every attempt; timeout
+    # None / 0 / 5), a node built from a URI list with headers
+    variants = [dict(method='GET', kwargs={'params': {'a': 1}}), dict(method='GET', kwargs={'json': {'x': [1, 2]}, 'timeout': 5}),
+                dict(method='POST', kwargs={'json': {'x': [1, 2]}, 'params': {'async': 'true'}}), dict(method='POST'),
+                dict(method='PUT', kwargs={'params': {'a': 1}, 'timeout': None}), dict(method='DELETE', kwargs={'timeout': 0}),
+                dict(method='PATCH'), dict(method='GET', node='list+headers'),
+                dict(via='get', kwargs={'params': {'a': 1}}), dict(via='post', kwargs={'json': {'branch': 'B', 'contents': []}}),
+                dict(via='post', kwargs={'json': 'deadbeef', 'params': {'chain': 'main'}, 'timeout': 7}), dict(via='put'), dict(via='delete', kwargs={'timeout': 3})]
+    vseqs = [[t] * k + ([dec] if dec else []) for t in ('tmp5xx', 'prevalidator') for k in range(0, 7)
+             for dec in ('ok', 'perm5xx', '401', '404', 'connerr', None) if (k or (dec and t == 'tmp5xx'))]
+    for v in variants:
+        for seq in vseqs:
+            node = new_node(v['node']) if v.get('node') else None
+            fs = eval_seq(seq, v.get('kwargs'), v.get('method', 'GET'), v.get('via'), node)
+            label = (v.get('via') and f"wrapper {v['via']}") or f"method {v.get('method')}"
+            ck.evaluate(f"{label} kwargs={sorted(v.get('kwargs') or {})} node={v.get('node', 'plain')} len={len(seq)} last={seq[-1]}")
+            merge({(c, f'{label}: {w}'): dict(seq=seq, info=f'{label} {v.get("kwargs")}: {i}', count=1,
+                                               extra={k: x for k, x in v.items()}) for c, i, w in fs})
 
     # full enumeration over the property's alphabet
     syms = list(ALPHABET)
     jobs = [(syms, n, first) for n in range(1, Lfull + 1) for first in syms]
     jobs.sort(key=lambda j: -j[1])
+    # ... and the second request on a node object that has already been through a request (BEFORE)
+    jobs = [('pairs', b) for b in BEFORE] + jobs
     with mp.get_context('fork').Pool(14 if thorough else 6) as pool:
-        for n, classes, fails in pool.imap_unordered(_chunk, jobs, chunksize=1):
+        for n, classes, fails in pool.imap_unordered(_job, jobs, chunksize=1):
             ck.evaluations += n
             ck.classes.update(classes)
             merge(fails)
     for (clause, w), f in sorted(agg.items()):
-        case = dict(seq=f['seq'])
-        if f.get('kwargs'):
-            case['kwargs'] = f['kwargs']
+        case = dict(seq=f['seq'], **f.get('extra', {}))
         ck.violation(clause, f"{f['count']} case(s); shortest: {f['info']}", case=case, replay=REPLAY, wclass=w)
     ck.exhaustive = True
